@@ -86,17 +86,17 @@ def run_history_job(job):
            'witness': collections.Counter(), 'witness_mismatch': [], 'error': None, 'samples': [], 'ok_reached': 0}
     try:
         bounds = W.Bounds(tier)
-        sc, _ = ST.build_history(eng, bounds, spec)
+        sc, ireq = ST.build_history(eng, bounds, spec)
         c0 = eng.nchecks
         dec = H.Decider(timeout_ms=opts.get('timeout_ms', 20000), seed=_W['seed'], cross_check=opts.get('cross_check', 0))
-        trails = list(ST.run_history(sc, spec))
+        trails = list(ST.run_history(sc, spec, ireq))
         res['explore_s'] = time.time() - t0
         res['pruning_checks'] = eng.nchecks - c0
         budget = opts.get('witness_per_spec', 12)
 
         def replay(trail, model):
             req0, funds0, p0 = trail[0]
-            step0 = {'kind': 'execute', 'sender': req0['sender'], 'funds': funds0, 'msg': req0['msg']}
+            step0 = req0.get('step') or {'kind': 'execute', 'sender': req0['sender'], 'funds': funds0, 'msg': req0['msg']}
             scen, c = H.build_replay(sc, model, step0, eng)
             for req, funds, p in trail[1:]:
                 scen['steps'].append({'kind': 'execute', 'sender': c.term_string(req['sender'], 'sender'), 'funds': [c.json(f, eng.ti, eng.serde_rename) for f in funds],
